@@ -6,7 +6,7 @@ HERE = os.path.dirname(os.path.abspath(__file__))
 sys.path.insert(0, HERE)
 from qlint import props as P, main as M
 EXACT = {'R-G', 'R-SIB', 'R-TW', 'R-DEL', 'R-LAY', 'R-PF', 'R-TAB', 'R-IT', 'R-NON', 'R-MSK', 'R-DAR', 'R-LVL', 'R-SPC', 'R-BOX', 'R-DBG', 'R-SMP', 'R-HINT', 'R-SELP'}
-LOW = {'R-DA': 3, 'R-SPLIT': 0, 'R-BITS': 0, 'R-CMP': 0, 'R-INV': 10, 'R-NEG': 0, 'R-IT': 1, 'R-DAR': 1, 'R-LVL': 1, 'R-HINT': 1, 'R-MSK': 1, 'R-SMP': 0, 'R-SELP': 1, 'R-OBJ': 0, 'R-GUSE': 0, 'R-WRAP': 0, 'R-RNG': 0, 'R-REMC': 0, 'R-ALL': 0, 'R-PRE': 0, 'R-PAR': 0, 'R-GIDX': 0, 'R-DNAME': 0, 'R-SIGN': 0, 'R-EMPT': 0, 'R-USE': 0, 'R-FLT': 0, 'R-STAB': 0, 'R-CTOR': 0, 'R-OFFS': 0, 'R-CODE': 0, 'R-HORD': 0}
+LOW = {'R-DA': 3, 'R-SPLIT': 0, 'R-BITS': 0, 'R-CMP': 0, 'R-INV': 10, 'R-NEG': 0, 'R-IT': 1, 'R-DAR': 1, 'R-LVL': 1, 'R-HINT': 1, 'R-MSK': 1, 'R-SMP': 0, 'R-SELP': 1, 'R-OBJ': 0, 'R-GUSE': 0, 'R-WRAP': 0, 'R-RNG': 0, 'R-REMC': 0, 'R-ALL': 0, 'R-PRE': 0, 'R-PAR': 0, 'R-GIDX': 0, 'R-DNAME': 0, 'R-SIGN': 0, 'R-EMPT': 0, 'R-USE': 0, 'R-FLT': 0, 'R-STAB': 0, 'R-CTOR': 0, 'R-OFFS': 0, 'R-CODE': 0, 'R-HORD': 0, 'R-NCNT': 0, 'R-CGEN': 0}
 out = {}
 for pid in sorted(P.PROPERTIES):
     insts, facts, key = M.run_property(pid, 'quick', quiet=True)
